@@ -8,6 +8,7 @@ parse_cstring_from_stream chunk-loop structure.
 """
 import ast
 import re
+from sa.canon import U
 from sa.world import get_world
 from sa import wrap, layout, expr, paths, streams, dispatch, dwconf
 from sa.report import AnalysisError
@@ -45,7 +46,7 @@ def run(ctx):
     ctx.guard('K-WRAP', 'wrapping', check_wrap, ctx, w)
     ctx.floor('K-WRAP', 10)
     ctx.guard('L-CSTR', 'cstring', check_cstr, ctx, w)
-    ctx.floor('L-CSTR', 7)
+    ctx.floor('L-CSTR', 6)
 
 
 def check_int24(ctx, w):
@@ -58,7 +59,7 @@ def check_int24(ctx, w):
     for cls, endian in (('UBInt24', '>'), ('ULInt24', '<')):
         f = w.model.func(CU, cls + '._parse')
         init = w.model.func(CU, cls + '.__init__')
-        ok = 'StaticField.__init__(self, name, 3)' in ast.unparse(init.node)
+        ok = 'StaticField.__init__(self, name, 3)' in U(init.node)
         ctx.ob('L-INT24', init.construct, 'three bytes', ok, msg='24-bit integer does not read exactly 3 bytes')
         asg = [n for n in ast.walk(f.node) if isinstance(n, ast.Assign) and isinstance(n.targets[0], ast.Tuple)]
         if len(asg) != 1:
@@ -69,7 +70,7 @@ def check_int24(ctx, w):
         fmt = packers.get(pk)
         ctx.ob('L-INT24', f.construct, 'packer byte order', fmt is not None and fmt[0] == endian, got=fmt, expected=endian + '..',
                msg='24-bit packer has the wrong byte order')
-        ctx.ob('L-INT24', f.construct, 'unpacks the 3 bytes read', 'StaticField._parse(self, stream, context)' in ast.unparse(call))
+        ctx.ob('L-INT24', f.construct, 'unpacks the 3 bytes read', 'StaticField._parse(self, stream, context)' in U(call))
         if fmt is None:
             continue
         items = list(fmt[1:])
@@ -109,7 +110,7 @@ def check_leb(ctx, w, mod, q, signed):
     ctx.ob('L-LEB', f.construct, 'shift grows by 7', tr.get('shift') == [('=', '0'), ('+=', '7')], got=tr.get('shift'))
     # short read
     shorts = [n for n in body if isinstance(n, ast.If) and expr.cond_str(n.test, env) == expr.spec_cond('len(data) != 1')]
-    ok = len(shorts) == 1 and len(shorts[0].body) == 1 and isinstance(shorts[0].body[0], ast.Raise) and 'FieldError' in ast.unparse(shorts[0].body[0])
+    ok = len(shorts) == 1 and len(shorts[0].body) == 1 and isinstance(shorts[0].body[0], ast.Raise) and 'FieldError' in U(shorts[0].body[0])
     ctx.ob('L-LEB', f.construct, 'short read raises FieldError', ok, msg='truncated LEB128 is not reported with FieldError')
     # continuation test: accepted spellings of "bit 7 of b is clear"
     accepted = set([expr.spec_cond('b & 0x80 == 0'), expr.spec_cond('not b & 0x80'), expr.spec_cond('b < 0x80'), expr.spec_cond('(b & 0x80) == 0')])
@@ -120,7 +121,7 @@ def check_leb(ctx, w, mod, q, signed):
     # statement order in the loop: read, short check, b, accumulate, shift, terminate
     kinds = []
     for st in body:
-        s = ast.unparse(st).split('\n')[0]
+        s = U(st).split('\n')[0]
         if s.startswith('data ='):
             kinds.append('read')
         elif s.startswith('if len(data)'):
@@ -152,22 +153,22 @@ def check_repeat(ctx, w):
     f = w.model.func(CU, 'RepeatUntilExcluding._parse')
     env = expr.FEnv(f.node, params=('stream', 'context'), inline=False)
     whiles = [n for n in ast.walk(f.node) if isinstance(n, ast.While)]
-    order = [ast.unparse(s).split('\n')[0] for s in whiles[0].body] if whiles else []
+    order = [U(s).split('\n')[0] for s in whiles[0].body] if whiles else []
     want = ['subobj = self.subcon._parse(stream, context_for_subcon)', 'if self.predicate(subobj, context):', 'obj.append(subobj)']
     ctx.ob('L-REP', f.construct, 'parse, test predicate, then append (terminator excluded)', order == want, got=order, expected=want,
            msg='the terminating element must be consumed but not included')
-    ok = any(isinstance(h, ast.ExceptHandler) and 'ConstructError' in ast.unparse(h.type) and 'ArrayError' in ast.unparse(h) for h in ast.walk(f.node))
+    ok = any(isinstance(h, ast.ExceptHandler) and 'ConstructError' in U(h.type) and 'ArrayError' in U(h) for h in ast.walk(f.node))
     ctx.ob('L-REP', f.construct, 'errors wrapped as ArrayError', ok)
     ctx.ob('L-REP', f.construct, 'returns the collected list', [expr.nfs(r.value, env) for r in expr.returns_of(f.node)] == ['obj'])
     g = w.model.func(CU, 'StreamOffset._parse')
-    ctx.ob('L-REP', g.construct, 'captures tell() and consumes nothing', [ast.unparse(s) for s in g.node.body] == ['return stream.tell()'])
+    ctx.ob('L-REP', g.construct, 'captures tell() and consumes nothing', [U(s) for s in g.node.body] == ['return stream.tell()'])
     tree = w.model.tree('construct/macros.py')
     pa = [n for n in tree.body if isinstance(n, ast.FunctionDef) and n.name == 'PrefixedArray'][0]
-    src = ast.unparse(pa)
+    src = U(pa)
     ctx.ob('L-REP', 'construct/macros.py:PrefixedArray', 'length field, then exactly that many elements',
            'Sequence(subcon.name, length_field, Array(lambda ctx: ctx[name], subcon), nested=False)' in src and 'name = length_field.name' in src, got=src[-200:])
     cs = [n for n in tree.body if isinstance(n, ast.FunctionDef) and n.name == 'CString'][0]
-    src = ast.unparse(cs)
+    src = U(cs)
     ctx.ob('L-REP', 'construct/macros.py:CString', 'single characters until a terminator', 'RepeatUntil(lambda obj, ctx: obj in terminators, char_field)' in src and
            "terminators: bytes=b'\\x00'" in src and 'char_field: Construct=Field(None, 1)' in src, got=src[:150])
     h = w.model.func('dwarf/structs.py', 'DWARFStructs._make_block_struct')
@@ -201,7 +202,7 @@ def check_wrap(ctx, w):
     # short reads inside the primitives raise subclasses of ConstructError
     for mod, q in ((CU, 'ULEB128._parse'), (CU, 'SLEB128._parse')):
         g = w.model.func(mod, q)
-        rs = [ast.unparse(n.exc.func) for n in ast.walk(g.node) if isinstance(n, ast.Raise) and isinstance(n.exc, ast.Call)]
+        rs = [U(n.exc.func) for n in ast.walk(g.node) if isinstance(n, ast.Raise) and isinstance(n.exc, ast.Call)]
         ctx.ob('K-WRAP', g.construct, 'raises FieldError only', rs == ['FieldError'], got=rs)
 
 
@@ -213,17 +214,37 @@ def check_cstr(ctx, w):
     ctx.ob('L-CSTR', f.construct, 'terminator searched in the chunk', tr.get('end_index') == [('=', "find(chunk,b'\\x00')")], got=tr.get('end_index'))
     whiles = [n for n in ast.walk(f.node) if isinstance(n, ast.While)]
     body = whiles[0].body if whiles else []
-    order = [ast.unparse(s).split('\n')[0] for s in body]
-    want = ['chunk = stream.read(CHUNKSIZE)', "end_index = chunk.find(b'\\x00')", 'if end_index >= 0:', 'if len(chunk) < CHUNKSIZE:']
-    ctx.ob('L-CSTR', f.construct, 'loop order', order == want, got=order, expected=want)
-    ifs = [n for n in body if isinstance(n, ast.If)]
-    ok = len(ifs) == 2 and [ast.unparse(s) for s in ifs[0].body] == ['chunks.append(chunk[:end_index])', 'found = True', 'break'] and \
-        [ast.unparse(s) for s in ifs[0].orelse] == ['chunks.append(chunk)'] and [ast.unparse(s) for s in ifs[1].body] == ['break']
-    ctx.ob('L-CSTR', f.construct, 'found: prefix kept and stop; else whole chunk kept; short chunk ends', ok,
+    # every path through one iteration: read and search first; found -> prefix kept, found set, loop left; not found -> whole
+    # chunk kept and the loop is left exactly when the chunk was short
+    found_c, short_c = expr.spec_cond('end_index >= 0'), expr.spec_cond('len(chunk) < CHUNKSIZE')
+    seen = set()
+    ok = bool(body)
+    why = None
+    for p in paths.enum_paths(body):
+        facts = expr.Facts(expr.CP(expr.cond_str(t, env), pol) for t, pol in p.conds())
+        stmts = [U(s) for s in p.stmts()]
+        head = stmts[:2] == ['chunk = stream.read(CHUNKSIZE)', "end_index = chunk.find(b'\\x00')"]
+        fnd, shrt = facts.get(found_c), facts.get(short_c)
+        if fnd is True:
+            seen.add('found')
+            good = head and stmts[2:] == ['chunks.append(chunk[:end_index])', 'found = True'] and p.end[0] == 'break'
+        elif fnd is False and shrt is True:
+            seen.add('short')
+            good = head and stmts[2:] == ['chunks.append(chunk)'] and p.end[0] == 'break'
+        elif fnd is False and shrt is False:
+            seen.add('full')
+            good = head and stmts[2:] == ['chunks.append(chunk)'] and p.end[0] == 'fall'
+        else:
+            good = False
+        if not good:
+            ok = False
+            why = (dict(facts), stmts, p.end[0])
+    ctx.ob('L-CSTR', f.construct, 'iteration: read, search; found: prefix kept and stop; else whole chunk kept; short chunk ends',
+           ok and seen == {'found', 'short', 'full'}, got=why or sorted(seen),
            msg='string bytes must be exactly the bytes before the first NUL, whatever the chunking')
     rets = [expr.nfs(r.value, env) for r in expr.returns_of(f.node)]
     ctx.ob('L-CSTR', f.construct, 'joined chunks or None', rets == [expr.spec_nf("join(b'', chunks) if found else None")], got=rets)
-    pre = [ast.unparse(s).split('\n')[0] for s in f.node.body if isinstance(s, ast.If)]
+    pre = [U(s).split('\n')[0] for s in f.node.body if isinstance(s, ast.If)]
     ctx.ob('L-CSTR', f.construct, 'absolute seek iff a position is given', pre == ['if stream_pos is not None:'])
     ctx.ob('L-CSTR', f.construct, 'every iteration consumes the chunk it inspects (progress)', len([o for o in streams.func_ops(f.node, env) if o.kind == 'read']) == 1)
 
